@@ -550,20 +550,31 @@ def _writeback_sites(ctx: Ctx):
         f = ctx.own_method(cn, "run_subgraph")
         if f is None:
             continue
-        chains = _if_chains(f.node)
+        from .val import reach_conditions
+
         for n in iter_own_nodes(f.node):
             if isinstance(n, ast.Assign) and isinstance(n.targets[0], ast.Subscript) and norm_src(n.targets[0].value) == "self.results":
-                out.append((f, n, chains.get(id(n), ())))
+                # the guard: enclosing tests and the negated guard clauses (continue / return) before the write, inside its loop
+                lp = next((x for x in iter_own_nodes(f.node) if isinstance(x, (ast.For, ast.While)) and any(n is y for y in own_walk(x))), None)
+                conds = reach_conditions(lp if lp is not None else f.node, n)
+                out.append((f, n, tuple(conds) if conds is not None else None))
     return out
 
 
 def _guard_is_setup_once(test_chain) -> Tuple[Optional[bool], str]:
     """(verdict, shown): True = exactly 'setup node and not yet recorded'; False = recognisably weaker/stronger; None = unknown shape."""
+    if test_chain is None:
+        return None, "(reach conditions not readable)"
     parts = []
     for t, v in test_chain:
-        if not v:
-            return False, " and ".join(norm_src(x) for x, _ in test_chain) + " (else-branch)"
-        parts += [norm_src(x) for x in (t.values if isinstance(t, ast.BoolOp) and isinstance(t.op, ast.And) else [t])]
+        if v:
+            parts.append(norm_src(t))
+        elif isinstance(t, ast.Compare) and len(t.ops) == 1 and isinstance(t.ops[0], ast.In):
+            parts.append(f"{norm_src(t.left)} not in {norm_src(t.comparators[0])}")
+        elif isinstance(t, ast.Compare) and len(t.ops) == 1 and isinstance(t.ops[0], ast.NotIn):
+            parts.append(f"{norm_src(t.left)} in {norm_src(t.comparators[0])}")
+        else:
+            parts.append("not " + norm_src(t))
     shown = " and ".join(parts)
     setup_t = [p for p in parts if p.endswith(".setup") and not p.startswith("not ")]
     exec_ok = [p for p in parts if (p.startswith("not ") and p.endswith(".executed(self.results)")) or p.endswith(" not in self.results")]
@@ -1193,7 +1204,7 @@ def own_wbcomplete(ctx: Ctx) -> RuleResult:
     r.require(len(sites) >= 2, "write-back sites not found")
     for f, n, ch in sites:
         parts = []
-        for t, v in ch:
+        for t, v in ch or ():
             parts += [norm_src(x) for x in (t.values if isinstance(t, ast.BoolOp) and isinstance(t.op, ast.And) else [t])]
         complete = any(any(k in p_ for k in (".dependencies", ".args", ".kwargs", "predecessors", "in_degree")) for p_ in parts)
         r.ob(complete, {"write-back": norm_src(n), "in": f.short, "guard": " and ".join(parts), "tests the node's inputs": complete})
@@ -1242,7 +1253,8 @@ def own_liveresults(ctx: Ctx) -> RuleResult:
                                   "a setup node that runs on the DAG after the snapshot was taken (dag.setup(), executor.setup(), a plain "
                                   "call) is missing from it: the executor's call runs that setup node a second time and hands its nodes "
                                   "another object than the one the DAG holds", norm_src(snap)[:120])
-                if isinstance(n, ast.Return) and n.value is not None and norm_src(n.value) == "self.dag.results":
+                if isinstance(n, ast.Return) and n.value is not None and (norm_src(n.value) == "self.dag.results" or (
+                        isinstance(n.value, ast.IfExp) and "self.dag.results" in (norm_src(n.value.body), norm_src(n.value.orelse)))):
                     n_live += 1
     r.ob(n_live >= 1, {"live reads of the DAG's results in the executors": n_live})
     if n_live == 0 and not r.findings:
